@@ -22,6 +22,9 @@ In-process correspondence (real function vs Lean model, result must be one of th
           c15.blockstarts incl. the genotype slices by object identity, c15.singleton, c15.force, c15.writeback,
           c15.integrate, c15.assignments, c15.permute, c15.aggregate, c15.cuts, c15.components) and the written VCF
           with the writer model (c15.write).
+  round 10: subinst (real find_subinstances / integrate_sub_results on generated thread matrices + cluster reads <->
+          c15.subinstances, c15.integratehaps), haploid_components <-> c15.haploid, HS text of the written VCF <-> c15.hs,
+          replay of every phase_single_block call through the model's stage order <-> c15.block
 Property oracle (Python, independent of the model) on every in-process result and on the output VCF of real
 `whatshap polyphase` runs on generated polyploid data.
 """
@@ -66,7 +69,8 @@ ASSUMPTIONS = [
     "the likelihood that picks the permutation (scipy binom.pmf) is not modelled: any permutation of alleles_to_insert is admissible",
     "--distrust-genotypes is outside the property; --tag HP output is C09's subject and not run here",
     "the BAM reader reports alleles only at positions of the variants it was asked for (hypothesis of genotype_list_aligned; checked on the real reader in every pipeline run, key reader-contract)",
-    "run_threading returns ploidy haplotypes per block and sub-instance thread sets of one position are disjoint (recorded and checked: c15.writeback `disjoint`)",
+    "run_threading returns ploidy haplotypes per block (sub-instance thread sets of one position are disjoint: theorem subinstances_disjoint_and_inside_block; also recorded and checked: c15.writeback `disjoint`, oracle subinst-overlap)",
+    "haploid sets: hap_cuts[j] start at 0, are strictly increasing and contained in cuts (hypotheses of the two haploid-set theorems; oracles hs-not-interval, hs-name, hs-border-inside-ps on every run)",
     "the writer model is per sample: another sample only decides whether a record passes the 'phased in any sample' gate, which does not change this sample's GT / phased flag / PS",
     "get_optimal_assignments with pre-phasing affiliations (ILP) is not modelled: oracle only (results are permutations)",
 ]
